@@ -76,6 +76,19 @@ Theorem C10_on_pdus : forall cfg own_r own_a ctxs rq m r,
 Proof. exact pdu_negotiation. Qed.
 Print Assumptions C10_on_pdus.
 
+(* the library talking to itself: the A-ASSOCIATE-RQ it builds (request_pdu: its own Maximum Length sub-item first, then
+   whatever sub-items the application adds), answered by its own acceptor under ANY configuration, read by its own
+   requestor - both functions succeed and the limits are those of `negotiate`; the reply announces the acceptor's limit
+   and repeats the other sub-items *)
+Theorem C10_library_to_library : forall cfg called calling ctxs ts_list own_r own_a rest,
+  let rq := request_pdu called calling ctxs ts_list (MaxLen 0 4 own_r :: rest) in
+  exists m r,
+    accept_pdu cfg own_a rq = Some m /\ read_reply own_r ctxs (acc_pdu m) = Some r
+    /\ acc_max m = lim_a (negotiate own_r own_a) /\ rep_max r = lim_r (negotiate own_r own_a)
+    /\ user_subs (acc_pdu m) = MaxLen 0 4 (ann_a (negotiate own_r own_a)) :: rest.
+Proof. exact library_pair. Qed.
+Print Assumptions C10_library_to_library.
+
 Theorem C10_nothing_announced : forall cfg own rq m,
   find_maxlen (user_subs rq) = None -> accept_pdu cfg own rq = Some m ->
   acc_max m = own /\ user_subs (acc_pdu m) = MaxLen 0 4 own :: user_subs rq.
